@@ -2,6 +2,7 @@ package checks
 
 import (
 	"fmt"
+	"os"
 	"path/filepath"
 	"strings"
 
@@ -187,6 +188,8 @@ func lineTreeCase(c *core.Ctx, i int) {
 		}
 		return sb.String()
 	}
+	ext := []string{".tw", ".tw.html", ".html"}[(i/8)%3]
+	dirSpelled := []string{"c13tree", "./c13tree/", "c13tree/nested/views", "x13/../c13tree"}[(i/24)%4]
 	files := map[string]string{
 		"layouts/main.tw":    "<html>\n@reserve(\"title\")\n<body>\n@reserve(\"body\")\n</body>\n",
 		"components/card.tw": "<card>\n{{ t }}\n@slot\n</card>\n",
@@ -258,10 +261,18 @@ func lineTreeCase(c *core.Ctx, i int) {
 		files[v.file] = content
 		files["page.tw"] = "@use(\"~main\")\n@insert(\"title\", \"T\")\n@insert(\"body\")\n@component(\"~card\", {t: 2})\n@slot\ns\n@end\n@end\n@end\n"
 	}
-	dir := "c13tree"
-	wantPath, _ := filepath.Abs(filepath.Join(dir, v.file))
+	// the files are written with the configured extension
+	renamed := map[string]string{}
+	for k, content := range files {
+		renamed[strings.TrimSuffix(k, ".tw")+ext] = content
+	}
+	files = renamed
+	os.MkdirAll("x13", 0o755)
+	dir := dirSpelled
+	wantPath, _ := filepath.Abs(filepath.Join(filepath.Clean(dir), strings.TrimSuffix(v.file, ".tw")+ext))
 	desc := map[string]any{"variant": v.name, "fault": f.name, "file": v.file, "line": line, "files": describeFiles(files)}
-	tpl, err := loadTree(c, dir, files, ".tw")
+	os.RemoveAll("c13tree")
+	tpl, err := loadTree(c, dir, files, ext)
 	c.Nontrivial(fmt.Sprint(files))
 	if i < 8 {
 		c.Sample(map[string]any{"variant": v.name, "fault": f.name, "file": v.file, "line": line, "content": content})
